@@ -161,28 +161,17 @@ Qed.
 (* ------------------------------------------------------------------------------------------------ *)
 Lemma fact_rules_interval : forall prog pd names,
   In id_Interval names ->
-  (owner_kind_of prog pd = OwnAgent -> ~ In id_Impulse names) ->
   In id_Interval (fact_rules prog pd names) \/ In id_Use (fact_rules prog pd names).
 Proof.
-  intros prog pd names Hi Hag. unfold fact_rules. destruct (owner_kind_of prog pd) eqn:Ek.
-  - left. left. reflexivity.
-  - right. left. reflexivity.
-  - left. destruct (mem id_Impulse names) eqn:Em.
-    + exfalso. apply (Hag eq_refl). apply mem_In. exact Em.
-    + left. reflexivity.
-  - left. apply in_or_app. right. apply mem_In in Hi. rewrite Hi. left. reflexivity.
+  intros prog pd names Hi. unfold fact_rules. apply mem_In in Hi.
+  destruct (owner_kind_of prog pd); [left | right | left | left]; apply in_or_app; right; try rewrite Hi; left; reflexivity.
 Qed.
 
 Lemma fact_rules_impulse : forall prog pd names,
-  In id_Impulse names ->
-  (owner_kind_of prog pd = OwnSV \/ owner_kind_of prog pd = OwnRR -> False) ->
-  In id_Impulse (fact_rules prog pd names).
+  In id_Impulse names -> In id_Impulse (fact_rules prog pd names).
 Proof.
-  intros prog pd names Hi Hk. unfold fact_rules. apply mem_In in Hi. destruct (owner_kind_of prog pd) eqn:Ek.
-  - exfalso. apply Hk. left. reflexivity.
-  - exfalso. apply Hk. right. reflexivity.
-  - rewrite Hi. left. reflexivity.
-  - rewrite Hi. left. reflexivity.
+  intros prog pd names Hi. unfold fact_rules. apply mem_In in Hi. rewrite Hi.
+  destruct (owner_kind_of prog pd); left; reflexivity.
 Qed.
 
 (* the rule of Use (hand model of reusable_resource::use_predicate) extends Interval: its chain contains Interval *)
